@@ -18,8 +18,10 @@ PROP = Property(
         harnesses=[
             H("c17_blocks_le_margin_and_within_one_step", "full",
               "forall tip,sec,step:u64. r <= tip.saturating_sub(sec) and (tip.saturating_sub(sec) - r) < max(step,1); no overflow / div-by-zero", [BLF]),
+            H("c17_transactions_adjusts_step_and_subtracts_one", "full",
+              "forall tip,sec,step (=15k+rem): result == free_fn(tip, sec, max(15k,15)).saturating_sub(1), callee `compute_block_number_to_be_signed` (private fn) as contract stub", [TXF], replay="none"),
             H("c17_transactions_le_margin_and_within_one_step", "full",
-              "forall tip,sec,step<u64::MAX. r <= x; x >= s ==> (x-(r+1)) < s; x < s ==> r == 0  (x = tip.saturating_sub(sec), s = max(15*(step/15),15))", [TXF]),
+              "forall tip,sec,step. r <= x; x >= s ==> (x-(r+1)) < s; x < s ==> r == 0  (x = tip.saturating_sub(sec), s = max(15*(step/15),15)) - direct, slow", [TXF], tier="thorough", timeout=3000),
             H("c17_transactions_no_panic_any_step", "full",
               "forall tip,sec,step:u64 (including step == u64::MAX): a beacon <= tip - sec is selected, no overflow", [TXF]),
             H("c17_op_sub_offset_is_saturating", "full", "BlockNumber - BlockNumberOffset == saturating_sub", ["impl Sub<BlockNumberOffset> for BlockNumber"]),
